@@ -135,7 +135,8 @@ Definition step (p : pool) (e : ev) : pool :=
       match nth_error (procs p) i with
       | Some WExited => if in_loop p
                         then let p1 := set_procs p (del_nth (procs p) i) in
-                             if user p && negb (Nat.eqb (pending p) 0) then top_up p1 else p1
+                             if user p && negb (Nat.eqb (pending p) 0) && clean_exit_reads_counters_after_the_pop_and_respawns_when_work_waits
+                             then top_up p1 else p1
                         else p
       | _ => p end
   | Detect => if in_loop p && existsb is_dead (procs p) then set_mgr p (MOps TBroken broken_ops) else p
